@@ -272,6 +272,7 @@ func init() {
 			{"publish-immut", "published templates are immutable", rulePublishImmut},
 			{"render-pure", "rendering writes only the clone", ruleRenderPure},
 			{"clone-pure", "clone functions do not write their source", ruleClonePure},
+			{"render-cache-free", "the rendering of a looked-up template never consults the template cache again (reachability)", ruleRenderCacheFree},
 			{"clone-alias", "the clone shares no library-mutable object with the base document", ruleCloneAliasFor()},
 			{"cross-call-state", "the engine keeps no render results between calls except its guarded template cache", ruleCrossCallStateEngine},
 		},
@@ -287,6 +288,7 @@ func init() {
 			{"closure-ret", "unknown variables stay", ruleClosureRet},
 			{"regex-repl-literal", "values never become an expanding regexp replacement ($-interpretation)", ruleRegexReplLiteral},
 			{"prefix-append", "no append of new elements to a prefix of a slice whose tail is still needed", rulePrefixAppend},
+			{"runs-kept", "helpers that map a run list to a run list keep every run (collects-all analysis)", ruleRunsKept},
 		},
 		Assumptions: commonAssumptions,
 	}
